@@ -509,6 +509,14 @@ static void judge_str(const io_t *io, res_t *r, const char *sfx, int noslack) {
         RES_DETAIL(r, "dest[%zu]=0x%zx after a successful conversion of %zu element(s), dmax %zu", R, dest_el(io, R), R, io->dmax);
         return;
     }
+    if (!noslack) { /* C08: the documented nulling of everything behind the terminator */
+        for (i = R + 1; i < io->dmax; i++) if (dest_el(io, i) != 0) {
+            snprintf(cls, sizeof cls, "stale-slack:%s", szc);
+            VIOL(r, fname, cls, sfx);
+            RES_DETAIL(r, "dest[%zu]=0x%zx behind the terminator at %zu (dmax %zu): earlier contents of dest are still there", i, dest_el(io, i), R, io->dmax);
+            return;
+        }
+    }
     if (rvar) {
         if (io->srcoff != off) {
             snprintf(cls, sizeof cls, "srcp-not-like-libc");
